@@ -55,20 +55,27 @@ Definition bin_step (gated snap_ok : bool) (chunks : nat) (s : world * bphase) :
   | BDone => s
   end.
 
-(* ---- SQL dump: BEGIN (deferred: the snapshot is taken by the first read); one read per table; ROLLBACK *)
+(* ---- SQL dump: a list of `queries` queries on one connection — the table list, one per table for its rows, and
+   finally the one for indexes, triggers and views — each reading some version.  BEGIN (deferred: the snapshot
+   is taken by the first read) ... ROLLBACK brackets the first `covered` of them; queries after the bracket run
+   in autocommit mode.  The code brackets all of them: covered = queries. *)
 Inductive dphase := DBegin | DRead (left : nat) | DDone.
 
 Definition read_version (w : world) : N :=
   match snap w with Some (Some v) => v | _ => k w end.
 
-Definition dump_step (in_tx : bool) (tables : nat) (s : world * dphase) : world * dphase :=
+Definition dump_step (covered queries : nat) (s : world * dphase) : world * dphase :=
   let '(w, ph) := s in
   match ph with
-  | DBegin => ((if in_tx then set_snap w (Some None) else w), DRead tables)
+  | DBegin => ((if (0 <? covered)%nat then set_snap w (Some None) else w), DRead queries)
   | DRead (S j) =>
-      let v := read_version w in
-      let w1 := match snap w with Some None => set_snap w (Some (Some v)) | _ => w end in
-      (emit w1 v, DRead j)
+      if (queries - S j <? covered)%nat then
+        let v := read_version w in
+        let w1 := match snap w with Some None => set_snap w (Some (Some v)) | _ => w end in
+        (emit w1 v, DRead j)
+      else
+        (* the bracket is closed: ROLLBACK has released the snapshot, the query sees the current state *)
+        (emit (set_snap w None) (k w), DRead j)
   | DRead O => (set_snap w None, DDone)
   | DDone => s
   end.
@@ -126,7 +133,8 @@ Definition hstatus_code (h : hstatus) : N := match h with H200 => 200 | H500 => 
 Inductive lobs :=
 | OErr                                   (* the request was refused *)
 | OGarbage                               (* 200 but not a loadable database *)
-| OState (ka kb : option N) (kl : N) (complete : bool).
+| OState (ka kb : option N) (kl : N) (ks : option N) (complete : bool).
+    (* versions shown by table a, table z, the log, and the schema (sqlite_master name/type/sql set) *)
 
 Inductive scn :=
 | Live (lo hi : N) (o : lobs)
@@ -157,7 +165,7 @@ Definition check_case (c : case) : bool :=
   | Live lo hi o =>
       if valid_request c then
         match o with
-        | OState (Some ka) (Some kb) kl true => obs_ok lo hi [ka; kb; kl]
+        | OState (Some ka) (Some kb) kl (Some ks) true => obs_ok lo hi [ka; kb; kl; ks]
         | _ => false
         end
       else match o with OErr => true | _ => false end
@@ -167,7 +175,7 @@ Definition check_case (c : case) : bool :=
         && Bool.eqb owner_is_backup (holds_gate (c_fmt c) (c_vacuum c))
         && Bool.eqb snapshot_refused (holds_gate (c_fmt c) (c_vacuum c))
         && match o with
-           | OState (Some ka) (Some kb) kl true => obs_ok lo hi [ka; kb; kl]
+           | OState (Some ka) (Some kb) kl (Some ks) true => obs_ok lo hi [ka; kb; kl; ks]
            | _ => false
            end
       else match o with OErr => true | _ => false end
